@@ -350,6 +350,27 @@ def callforms():
                     forms.append(("pos", v))
                 for form, val in forms:
                     out[f"CF/{mod}.{attr}/{p_.name}={val!r}/{form}"] = (mod, attr, len(req), p_.name, val, form)
+        # ALL optional arguments non-default at once (keyword form).  Candidate values per parameter; the
+        # un-patched library function itself decides which combination is a valid call (evaluated
+        # eagerly on a sample operand), preferring combinations whose result differs from the default
+        # call, so that an argument silently re-bound or dropped changes the output.
+        cands = []
+        for p_ in opt:
+            d = p_.default
+            if isinstance(d, bool):
+                cands.append((p_.name, [not d]))
+            elif isinstance(d, float):
+                cands.append((p_.name, [d * 2.0 + 0.5]))
+            elif isinstance(d, int):
+                cands.append((p_.name, [d + 1, d - 1, 0, -1, 1] if p_.name != "axis" else [0, -1, 1]))
+            elif d is None and p_.name == "axis":
+                cands.append((p_.name, [0, -1, 1]))
+            elif d is None and p_.name == "keepdims":
+                cands.append((p_.name, [True]))
+        if len(cands) >= 2:
+            chosen = _valid_all_forms(orig, len(req), cands)
+            for names, vals in chosen:
+                out[f"CFA/{mod}.{attr}/" + ",".join(f"{n}={v!r}" for n, v in zip(names, vals)) + "/kwall"] = (mod, attr, len(req), tuple(names), tuple(vals), "kwall")
         # two cooperating non-default arguments (keyword form)
         for i in range(len(singles)):
             for j in range(i + 1, len(singles)):
@@ -357,6 +378,32 @@ def callforms():
                 out[f"CF2/{mod}.{attr}/{n1}={v1!r},{n2}={v2!r}/kw"] = (mod, attr, len(req), (n1, n2), (v1, v2), "kw2")
     _CF = out
     return out
+
+
+def _valid_all_forms(orig, nreq, cands, limit=2, max_tries=48):
+    import itertools
+
+    import numpy as np
+
+    arrs = [np.array([[0.5, -1.5, 2.0], [1.0, 0.25, -3.0]], dtype=np.float32) * (i + 1) for i in range(nreq)]
+    try:
+        base = orig(*arrs)
+        base_leaves = [np.asarray(x) for x in (base if isinstance(base, (tuple, list)) else [base])]
+    except Exception:
+        return []
+    names = [n for n, _ in cands]
+    good, weak = [], []
+    for t, combo in enumerate(itertools.product(*[v for _, v in cands])):
+        if t >= max_tries or len(good) >= limit:
+            break
+        try:
+            r = orig(*arrs, **dict(zip(names, combo)))
+            leaves = [np.asarray(x) for x in (r if isinstance(r, (tuple, list)) else [r])]
+        except Exception:
+            continue
+        differs = len(leaves) != len(base_leaves) or any(a.shape != b.shape or not np.array_equal(a, b, equal_nan=True) for a, b in zip(leaves, base_leaves))
+        (good if differs else weak).append((names, combo))
+    return (good + weak)[:limit]
 
 
 def _materialise(v):
@@ -373,9 +420,10 @@ def list_jobs(tier):
     ids = sorted(callforms())
     singles = [i for i in ids if i.startswith("CF/")]
     pairs = [i for i in ids if i.startswith("CF2/")]
+    alls = [i for i in ids if i.startswith("CFA/")]
     if tier == "thorough":
         return ids
-    return singles[:: max(1, len(singles) // 260)] + pairs[:: max(1, len(pairs) // 200)]
+    return singles[:: max(1, len(singles) // 260)] + pairs[:: max(1, len(pairs) // 200)] + alls
 
 
 def run_job(job, tier):
@@ -392,8 +440,8 @@ def run_job(job, tier):
         f = getattr(m, attr)  # late binding: the converter substitutes the module attribute
         if form == "pos":
             return f(*arrays, _materialise(val))
-        if form == "kw2":
-            return f(*arrays, **{pname[0]: _materialise(val[0]), pname[1]: _materialise(val[1])})
+        if form in ("kw2", "kwall"):
+            return f(*arrays, **{n: _materialise(v) for n, v in zip(pname, val)})
         return f(*arrays, **{pname: _materialise(val)})
 
     prog = pipeline.Program(pid=job, fn=fn, specs=[((2, 3), np.dtype(np.float32))] * nreq)
